@@ -269,6 +269,17 @@ theorem prescribe_leaves_free_alone (hw : WellFormed mobs q.length u.length)
 theorem prescribe_length (mobs : List (MobIn K)) (q u : List K) :
     (prescribe mobs q u).1.length = q.length ∧ (prescribe mobs q u).2.length = u.length := by
   rw [prescribe_fst, prescribe_snd]; exact ⟨walk_length _ _ _ _, walk_length _ _ _ _⟩
+
+/-- non-vacuity of `WellFormed` and a concrete run of the executed definitions: a Position-locked mobilizer (locked at 5)
+next to a free one -/
+def exLocked : MobIn ℚ := ⟨0, 0, 1, 1, .position, [5], [0], none, [0], [0], [0], [0], [0], [0], [[1]], [0]⟩
+def exFree : MobIn ℚ := ⟨1, 1, 1, 1, .noLevel, [0], [0], none, [0], [0], [0], [0], [0], [0], [[1]], [0]⟩
+example : WellFormed [exLocked, exFree] 2 2 := by
+  constructor <;> simp [liveMobs, exLocked, exFree]
+example : prescribe [exLocked, exFree] [1, 2] [3, 4] = ([5, 2], [0, 4]) := by
+  simp [prescribe, partition, liveMobs, qEntries, uEntries, udotEntries, exLocked, exFree, MobIn.methods, instanceMethods,
+    collect, collectVals, slotsIf, isPres, isZero, MobIn.qPoolVals, MobIn.uPoolVals, MobIn.locked, prescribeQ, prescribeU,
+    scatter, scatterZero, anyNonzero, Methods.allFree]
 end composed
 
 /-! ## (b) Motion::Sinusoid / Motion::Steady : the reported derivatives are the derivatives -/
@@ -413,17 +424,66 @@ theorem init_lockValue (defQ : List K) (nu : Nat) :
   simp [Mob.init, Mob.lockValue, Mob.isLocked]
 end locks
 
-/-! ## (d) the reported motion forces, applied as ordinary forces, reproduce the accelerations -/
+/-! ## (d) forward dynamics with prescribed joints: the code's two passes satisfy both block rows -/
+section aba
+open Matrix TreeDynAbs TreeDynAbs.MBT C10.Aba
+variable {K : Type} [Field K] {ι : Type} [Fintype ι] [DecidableEq ι]
+variable (pr : Flag K ι) (di : DInv K ι) (ab fb : Bd K ι → ι → K) (fm : MobF K ι)
+
+/-- **ABA with prescribed joints (`calcUDotPass1Inward` / `calcUDotPass2Outward`), any rose tree, any joint
+dimensions, hinge matrices, shift operators, inertias, biases, applied forces.**  Run inverse dynamics (RNEA,
+`FrP`: `F = M A + b − F_applied + Σ φ_c F_c`, the operator whose linear part is the mass matrix) on the accelerations the
+two passes deliver (`udotP`: prescribed value at prescribed joints, `DI eps − Gᵀ A⁺` at free joints).  Then at EVERY
+joint of the tree
+* free joint:        `Hᵀ F = f`            — row r: the free accelerations solve the equations of motion with the
+                                              prescribed ones entering as given inputs (`M_rr u̇_r + M_rp u̇_p + bias_r = f_r`);
+* prescribed joint:  `Hᵀ F = f − tau`      — row p: the reported `tau = eps − Hᵀ(P A⁺)` is exactly
+                                              `f_p − (M_pr u̇_r + M_pp u̇_p + bias_p)`  (`M u̇ + tau = f`, tau on the LHS);
+and every prescribed joint does move with its prescribed acceleration. -/
+theorem aba_prescribed (t : MBT K ι) (Ap : ι → K) (h : WFp pr di t) :
+    AllN ab (udotP pr di ab fb fm)
+      (fun t Ap => (bd t).Hᵀ *ᵥ FrP ab fb (udotP pr di ab fb fm) t Ap = fm t - tauFull pr di ab fb fm t Ap) t Ap ∧
+    AllN ab (udotP pr di ab fb fm) (fun t Ap => pr t = true → udotP pr di ab fb fm t Ap = (bd t).ud) t Ap := by
+  constructor
+  · exact allN_of_forall_p pr di ab _ _ (fun t Ap ht => aba_prescribed_row pr di ab fb fm t Ap ht) t Ap h
+  · exact allN_of_forall_p pr di ab _ _ (fun t Ap _ hp => by simp [udotP, hp]) t Ap h
+
+/-- **The reported motion forces, applied as ordinary forces to the same system WITHOUT the prescription, reproduce
+the same accelerations.**  `t` carries two sets of joint inverses: `di` for the prescribed system (`WFp`) and the
+stored `DI` for the fully free system (`WF`).  Let `fm'` be any assignment of mobility forces that at every joint
+equals the applied force minus the reported motion force (`findMotionForces`: tau at prescribed joints, 0 at free
+ones).  Then ordinary (un-prescribed) forward dynamics `udotA` driven by `fm'` yields, at every joint, exactly the
+acceleration of the prescribed run — in particular the prescribed accelerations themselves. -/
+theorem tau_as_applied_force (t : MBT K ι) (Ap : ι → K) (hp : WFp pr di t) (hfree : WF t) (fm' : MobF K ι)
+    (hfm : AllN ab (udotP pr di ab fb fm) (fun t Ap => fm' t = fm t - tauFull pr di ab fb fm t Ap) t Ap) :
+    AllN ab (udotP pr di ab fb fm) (fun t Ap => udotA ab fb fm' t Ap = udotP pr di ab fb fm t Ap) t Ap := by
+  have h1 := (aba_prescribed pr di ab fb fm t Ap hp).1
+  have h2 := allN_mp2 ab (udotP pr di ab fb fm) _ _
+    (fun t Ap => (bd t).Hᵀ *ᵥ FrP ab fb (udotP pr di ab fb fm) t Ap = fm' t)
+    (fun t Ap a b => by rw [a, b]) t Ap h1 hfm
+  exact (inverse_core ab fb fm' (udotP pr di ab fb fm) t Ap hfree h2).2
+
+/-- non-vacuity of `WFp`: a prescribed joint needs no inverse at all; a free leaf joint needs `Hᵀ M H` invertible -/
+example (n : Bd K ι) (hM : n.Mᵀ = n.M) (c : MBT K ι) (hc : WFp (fun t => t.kids.isEmpty == false) di c) :
+    WFp (fun t => t.kids.isEmpty == false) di (MBT.mk n [c]) :=
+  WFp.mk n [c] hM (by intro c' hc'; simp at hc'; subst hc'; exact hc) (by intro h; simp [MBT.kids] at h)
+example (n : Bd K ι) (hM : n.Mᵀ = n.M) (hdet : IsUnit (n.Hᵀ * n.M * n.H).det) :
+    WFp (fun _ => false) (fun t => ((bd t).Hᵀ * (bd t).M * (bd t).H)⁻¹) (MBT.mk n []) := by
+  refine WFp.mk n [] hM (by simp) (fun _ => ?_)
+  simp only [Dp, Pp, Ppkids, add_zero, bd]
+  exact ⟨Matrix.mul_nonsing_inv _ hdet, Matrix.nonsing_inv_mul _ hdet⟩
+end aba
+
+/-! ### block algebra and the dense reference solver (used by the `elim` records) -/
 section blocks
 open Matrix
 variable {K : Type} [Field K] {r p : Type} [Fintype r] [Fintype p] [DecidableEq r] [DecidableEq p]
 
 omit [DecidableEq r] [DecidableEq p] in
-/-- **tau as applied force** (block-matrix form, any index types).  If `u̇_r` solves the reduced system
-`M_rr u̇_r = f_r − M_rp u̇_p` and `tau_p = f_p − M_pr u̇_r − M_pp u̇_p` (the sign the code reports: `M u̇ + tau = f`),
-then `(u̇_r, u̇_p)` solves the **full, unprescribed** system with `−tau` applied as an ordinary mobility force:
-`M u̇ = f − E_p tau`. -/
-theorem tau_as_applied_force (Mrr : Matrix r r K) (Mrp : Matrix r p K) (Mpr : Matrix p r K) (Mpp : Matrix p p K)
+/-- (block algebra only — the two hypotheses ARE the two block rows; the content about the code's recursion is
+`aba_prescribed` / `tau_as_applied_force` below.)  If `u̇_r` satisfies the r-row `M_rr u̇_r = f_r − M_rp u̇_p` and `tau_p` the
+p-row `tau_p = f_p − M_pr u̇_r − M_pp u̇_p`, then the stacked vector satisfies the stacked system `M u̇ = f − E_p tau`. -/
+theorem block_rows_give_full_system (Mrr : Matrix r r K) (Mrp : Matrix r p K) (Mpr : Matrix p r K) (Mpp : Matrix p p K)
     (fr udr : r → K) (fp udp tau : p → K)
     (hsolve : Mrr *ᵥ udr = fr - Mrp *ᵥ udp)
     (htau : tau = fp - Mpr *ᵥ udr - Mpp *ᵥ udp) :
@@ -434,29 +494,17 @@ theorem tau_as_applied_force (Mrr : Matrix r r K) (Mrp : Matrix r p K) (Mpr : Ma
   | inl i => simp [hsolve]
   | inr i => simp [htau]; ring
 
-/-- … and when the mass matrix is invertible (it is SPD) that solution is the only one: un-prescribing and applying
-the reported forces reproduces exactly the same accelerations. -/
-theorem tau_as_applied_force_unique (Mrr : Matrix r r K) (Mrp : Matrix r p K) (Mpr : Matrix p r K) (Mpp : Matrix p p K)
+/-- (block algebra) when `M` is invertible the stacked system has no other solution -/
+theorem block_full_system_unique (Mrr : Matrix r r K) (Mrp : Matrix r p K) (Mpr : Matrix p r K) (Mpp : Matrix p p K)
     (fr udr : r → K) (fp udp tau : p → K)
     (hsolve : Mrr *ᵥ udr = fr - Mrp *ᵥ udp)
     (htau : tau = fp - Mpr *ᵥ udr - Mpp *ᵥ udp)
     (hM : IsUnit (fromBlocks Mrr Mrp Mpr Mpp).det)
     (x : r ⊕ p → K) (hx : fromBlocks Mrr Mrp Mpr Mpp *ᵥ x = Sum.elim fr fp - Sum.elim (0 : r → K) tau) :
     x = Sum.elim udr udp := by
-  have h := tau_as_applied_force Mrr Mrp Mpr Mpp fr udr fp udp tau hsolve htau
+  have h := block_rows_give_full_system Mrr Mrp Mpr Mpp fr udr fp udp tau hsolve htau
   have hinj := Matrix.mulVec_injective_of_isUnit ((Matrix.isUnit_iff_isUnit_det _).mpr hM)
   exact hinj (hx.trans h.symm)
-
-/-- conversely the prescribed part of that unique solution is the prescribed acceleration: the free system driven by
-`f − E_p tau` *honours the prescription* -/
-theorem tau_reproduces_prescription (Mrr : Matrix r r K) (Mrp : Matrix r p K) (Mpr : Matrix p r K) (Mpp : Matrix p p K)
-    (fr udr : r → K) (fp udp tau : p → K)
-    (hsolve : Mrr *ᵥ udr = fr - Mrp *ᵥ udp) (htau : tau = fp - Mpr *ᵥ udr - Mpp *ᵥ udp)
-    (hM : IsUnit (fromBlocks Mrr Mrp Mpr Mpp).det)
-    (x : r ⊕ p → K) (hx : fromBlocks Mrr Mrp Mpr Mpp *ᵥ x = Sum.elim fr fp - Sum.elim (0 : r → K) tau) :
-    (fun i => x (Sum.inr i)) = udp ∧ (fun i => x (Sum.inl i)) = udr := by
-  have := tau_as_applied_force_unique Mrr Mrp Mpr Mpp fr udr fp udp tau hsolve htau hM x hx
-  subst this; constructor <;> rfl
 
 /-- non-vacuity: `M = [[2,1],[1,3]]` (SPD), first mobility free, second prescribed to `u̇_p = 1`, `f = (4, 5)`:
 `u̇_r = 3/2`, `tau = 1/2` -/
@@ -471,7 +519,7 @@ variable {K : Type} [Field K]
 disjoint, `< n`), `udr` solving the reduced system the model sets up, `tau` the model's reported forces.  Then every
 row `i ∈ r ∪ p` of the *full* system holds for the assembled `u̇`:   `M[i] · u̇ + (findMotionForces)[i] = f[i]`,
 i.e. `M u̇ = f − E_p tau`: the unprescribed system with `−tau` as applied mobility force has the same accelerations. -/
-theorem tau_as_applied_force_model (n : Nat) (M : List (List K)) (f : List K) (r p : List Nat) (udr udp : List K)
+theorem block_rows_model (n : Nat) (M : List (List K)) (f : List K) (r p : List Nat) (udr udp : List K)
     (hr : r.Nodup) (hp : p.Nodup) (hdisj : ∀ i ∈ p, i ∉ r) (hrb : ∀ i ∈ r, i < n) (hpb : ∀ i ∈ p, i < n)
     (hlr : r.length = udr.length) (hlp : p.length = udp.length)
     (hsolve : matVec (subMat M r r) udr = reducedRhs M f r p udp) :
@@ -504,25 +552,74 @@ theorem tau_as_applied_force_model (n : Nat) (M : List (List K)) (f : List K) (r
     simp only [udot, assemble]
     exact scatter_getElem?_of_mem _ p udp hp hlp k hk (by simpa using hpb _ (List.getElem_mem hk))
 
-/-- **soundness of the executable `elim`**: when no pivot of the elimination on `M_rr` vanishes (SPD ⇒ all pivots
-positive), the free accelerations `gaussSolve` returns do solve the reduced system, hence the model's `(u̇, tau)`
-satisfy the full system `M u̇ + E_p tau = f` on every free and every prescribed row. -/
-theorem elim_sound (n : Nat) (M : List (List K)) (f : List K) (r p : List Nat) (udp : List K)
+/-- the dense reference solver of the `elim` records does solve the block system it sets up: when no pivot of the
+elimination on `M_rr` vanishes, `gaussSolve`'s result satisfies the reduced system (`gaussSolve_correct`), hence the
+pair `(u̇, tau)` the driver prints satisfies every free and every prescribed row of `M u̇ + E_p tau = f`.  (That the
+CODE's recursion satisfies the same rows is `aba_prescribed`.) -/
+theorem elim_solves_block_system (n : Nat) (M : List (List K)) (f : List K) (r p : List Nat) (udp : List K)
     (hr : r.Nodup) (hp : p.Nodup) (hdisj : ∀ i ∈ p, i ∉ r) (hrb : ∀ i ∈ r, i < n) (hpb : ∀ i ∈ p, i < n)
     (hlp : p.length = udp.length)
     (hshape : Shape r.length (subMat M r r) (reducedRhs M f r p udp))
-    (hpiv : PivotsOK r.length (subMat M r r) (reducedRhs M f r p udp))
-    (hlen : (elim M f r p udp).1.length = r.length) :
+    (hpiv : PivotsOK r.length (subMat M r r) (reducedRhs M f r p udp)) :
     let udot := assemble n r p (elim M f r p udp).1 udp
     let forces := unpackTau n p (elim M f r p udp).2
     (∀ i, i ∈ r ∨ i ∈ p → dot (M.getD i []) udot + forces.getD i 0 = f.getD i 0) ∧
     (∀ (k : Nat) (hk : k < p.length), udot[p[k]]? = some (udp[k]'(hlp ▸ hk))) := by
   intro udot forces
   have hsolve := gaussSolve_correct r.length _ _ hshape hpiv
-  obtain ⟨h1, h2, h3⟩ := tau_as_applied_force_model n M f r p (elim M f r p udp).1 udp hr hp hdisj hrb hpb hlen.symm hlp hsolve
+  have hlen : (elim M f r p udp).1.length = r.length := gaussSolve_length r.length _ _ hshape
+  obtain ⟨h1, h2, h3⟩ := block_rows_model n M f r p (elim M f r p udp).1 udp hr hp hdisj hrb hpb hlen.symm hlp hsolve
   exact ⟨fun i hi => hi.elim (h1 i) (h2 i), h3⟩
 
-/-- non-vacuity / concrete instance of `elim_sound`'s hypotheses and conclusion:
+
+/-- **unlocking / disabling restores free behaviour of the executed model**: when no mobilizer is locked and none has
+an enabled Motion, the partition has no prescribed, no known-zero and no known-udot slot at all, `prescribe` is the
+identity and the known-udot scatter changes nothing. -/
+theorem partition_all_free [DecidableEq K] (mobs : List (MobIn K)) (q u udot : List K)
+    (h : ∀ m ∈ mobs, m.lockLevel = .noLevel ∧ (m.motion = none ∨ ∃ md, m.motion = some md ∧ md.disabled = true)) :
+    (partition mobs).presForce = [] ∧ (partition mobs).presQ = [] ∧ (partition mobs).zeroQ = [] ∧
+    (partition mobs).presU = [] ∧ (partition mobs).zeroU = [] ∧
+    (partition mobs).presUDot = [] ∧ (partition mobs).zeroUDot = [] ∧
+    prescribe mobs q u = (q, u) ∧ knownUDot mobs udot = udot := by
+  have hmeth : ∀ m ∈ liveMobs mobs, m.methods = Methods.allFree := by
+    intro m hm
+    obtain ⟨hm', hnq⟩ := mem_liveMobs.mp hm
+    obtain ⟨hl, hmo⟩ := h m hm'
+    rcases hmo with h0 | ⟨md, h0, hd⟩ <;> simp [MobIn.methods, instanceMethods, hnq, hl, h0, *]
+  have nil : ∀ (sel : Method → Bool) (fe : MobIn K → Nat × Nat × Method),
+      (∀ m ∈ liveMobs mobs, sel (fe m).2.2 = false) → collect sel ((liveMobs mobs).map fe) = [] := by
+    intro sel fe hs
+    apply collect_eq_nil
+    intro e he
+    obtain ⟨m, hm, rfl⟩ := List.mem_map.mp he
+    exact hs m hm
+  have e1 : (partition mobs).presForce = [] := nil notFree _ (fun m hm => by simp [hmeth m hm, Methods.allFree, notFree])
+  have e2 : (partition mobs).presQ = [] := nil isPres _ (fun m hm => by simp [hmeth m hm, Methods.allFree, isPres])
+  have e3 : (partition mobs).zeroQ = [] := nil isZero _ (fun m hm => by simp [hmeth m hm, Methods.allFree, isZero])
+  have e4 : (partition mobs).presU = [] := nil isPres _ (fun m hm => by simp [hmeth m hm, Methods.allFree, isPres])
+  have e5 : (partition mobs).zeroU = [] := nil isZero _ (fun m hm => by simp [hmeth m hm, Methods.allFree, isZero])
+  have e6 : (partition mobs).presUDot = [] := nil isPres _ (fun m hm => by simp [hmeth m hm, Methods.allFree, isPres])
+  have e7 : (partition mobs).zeroUDot = [] := nil isZero _ (fun m hm => by simp [hmeth m hm, Methods.allFree, isZero])
+  refine ⟨e1, e2, e3, e4, e5, e6, e7, ?_, ?_⟩
+  · simp only [prescribe, prescribeQ, prescribeU, e2, e3, e4, e5]; simp
+  · simp only [knownUDot, scatterKnownUDot, e6, e7]; simp
+
+/-- with nothing prescribed the dense reference reduces to the plain solve `M u̇ = f` and reports no motion force -/
+theorem elim_all_free (M : List (List K)) (f : List K) (r : List Nat) :
+    elim M f r [] [] = (gaussSolve r.length (subMat M r r) (pick f r), []) := by
+  have h0 : matVec (subMat M r []) ([] : List K) = List.replicate r.length 0 := by
+    simp [matVec, subMat, pick, List.map_const']
+  have h1 : reducedRhs M f r [] [] = pick f r := by
+    unfold reducedRhs
+    rw [h0]
+    exact vsub_replicate_zero _ _ (by simp [pick])
+  simp [elim, h1, tauOf, vsub, pick, subMat, matVec]
+
+/-- `calcMotionPower` of the model is `−tau · u_p` -/
+theorem motionPower_is_neg_dot (tau : List K) (p : List Nat) (u : List K) :
+    motionPower tau p u = - dot tau (pick u p) := motionPower_eq tau p u
+
+/-- non-vacuity / concrete instance of `elim_solves_block_system`'s hypotheses and conclusion:
 `M = [[2,1],[1,3]]`, slot 0 free, slot 1 prescribed to 1, `f = (4,5)` ⇒ `u̇ = (3/2, 1)`, `tau = 1/2`, power with
 `u = (0, 2)` is `−1` -/
 example : elim [[(2 : ℚ), 1], [1, 3]] [4, 5] [0] [1] [1] = ([3 / 2], [1 / 2]) ∧
